@@ -18,7 +18,7 @@ RULE = ("mode 4: timed sequences of 10..60 well-formed STORE and streamed FETCH 
 ASSUMPTIONS = ["the TTL window and the store PoW predicate are decided by C02 and C19 (same code paths, their own checks)",
                "clock in whole seconds"]
 TRUSTED = ["extraction: ExtrOcamlBasic only", "harness/impl_control.cpp"]
-TIMEOUT = 900
+TIMEOUT = 2400
 
 
 def lp(b):
@@ -138,7 +138,7 @@ def generate(rng, tier):
     # the same with store proof-of-work on: valid STOREs (kind 0), STOREs with a wrong nonce (2) or without one (3) and streamed
     # FETCHes mixed in bursts; every STORE-path request takes a limiter slot whether or not its proof of work is good, and a
     # failed or accepted proof of work must not change what the limiter remembers
-    for j in range(n):
+    for j in range(min(n, 400)):
         d = rng.choice([1, 4, 6, 8])
         good = find_nonce(b"xyz", b"", d, 256, rng.randrange(1000))
         bad = find_nonce(b"xyz", b"", 0, d - 1, rng.randrange(1000))
